@@ -262,6 +262,33 @@ class Model:
                 return r
         return None
 
+    def badrank_blocks(self, fn, depth=2):
+        """blocks of fn that certainly raise Exception::BadRank: a throw expression naming the
+        enumerator, or a call of a function all of whose paths end in such a block"""
+        cfg = fn.cfg
+        out = set()
+        for n in fn.walk():
+            hit = False
+            if n.get("k") == "CXXThrowExpr":
+                hit = any(x.get("k") == "DeclRefExpr" and x["ref"].get("dk") == "enumconst"
+                          and x["ref"].get("qn") == self.badrank for x in F.walk(n))
+            elif depth > 0 and n.get("k") in ("CallExpr", "CXXMemberCallExpr"):
+                g = self.fx.functions.get(n.get("calleeKey"))
+                hit = g is not None and g.body is not None and self.always_badrank(g, depth - 1)
+            if hit:
+                p = cfg.block_of(n)
+                if p:
+                    out.add(p[0])
+        return out
+
+    def always_badrank(self, fn, depth):
+        key = ("abr", fn.key, depth)
+        if key not in self.memo:
+            self.memo[key] = False
+            blocks = self.badrank_blocks(fn, depth)
+            self.memo[key] = bool(blocks) and not fn.cfg.paths_avoiding(fn.cfg.entry, blocks, {fn.cfg.exit})
+        return self.memo[key]
+
     def is_operand_class(self, cq):
         return cq in self.hier or cq in self.composite
 
@@ -408,7 +435,9 @@ class Analysis:
                 return {(o, norm_comp(self.s.kind[o], self.m.t["getter_component"].get(g, "x")))}
             return set()
         if k in ("BinaryOperator", "UnaryOperator", "ConditionalOperator") or k in _CASTS:
-            if k == "BinaryOperator" and e.get("op") in ("=", ",", "==", "!=", "<", ">", "<=", ">=", "&&", "||"):
+            if k == "BinaryOperator" and e.get("op") in ("=", ",") and len(c) == 2:
+                return self.dim_comps(c[1], depth + 1)      # value of an assignment / comma expression
+            if k == "BinaryOperator" and e.get("op") in ("==", "!=", "<", ">", "<=", ">=", "&&", "||"):
                 return set()
             out = set()
             kids = c[1:] if k == "ConditionalOperator" else c
@@ -592,16 +621,7 @@ class Analysis:
         return (t, f) if pol else (f, t)
 
     def _badrank_blocks(self):
-        cfg = self.fn.cfg
-        out = set()
-        for n in self.fn.walk():
-            if n.get("k") == "CXXThrowExpr":
-                if any(x.get("k") == "DeclRefExpr" and x["ref"].get("dk") == "enumconst"
-                       and x["ref"].get("qn") == self.m.badrank for x in F.walk(n)):
-                    p = cfg.block_of(n)
-                    if p:
-                        out.add(p[0])
-        return out
+        return self.m.badrank_blocks(self.fn)
 
     def _checks(self, acts, ties):
         cfg = self.fn.cfg
